@@ -550,8 +550,10 @@ theorem writeLog_sim (hy : hyg cfg sfx ids = true) (h : Sim H sfx ids s d) (i : 
       · split
         · exact h2
         · simp only [writeBody, writeFile, if_true]
-          exact ⟨h2.hmode, h2.hsfx, h2.root, h2.nc, h2.ndC, h2.ndN, h2.fromC, h2.fromN, h2.cacheC, h2.cacheN,
-            h2.md5N, h2.md5C, h2.ncDir⟩
+          split
+          · exact h2
+          · exact ⟨h2.hmode, h2.hsfx, h2.root, h2.nc, h2.ndC, h2.ndN, h2.fromC, h2.fromN, h2.cacheC, h2.cacheN,
+              h2.md5N, h2.md5C, h2.ncDir⟩
   rcases spec_writeLog_cases (sfx := sfx) (d := d) i data with e | e
   · rw [e]; exact key d h hs'
   · rw [e]; exact key _ (sim_dlogs h _) (sim_dlogs hs' _)
